@@ -4,7 +4,7 @@
 //!   `<op> <fam> wd <W> ann <A> nh <kind> attrs <len>`
 //!   op   = split (into_messages) | iter (into_pdu_iter) | take (take_message) | single (into_message)
 //!   fam  = v4u | v6u | v4ua | v6ua | v6fs | v4m | v6m | v4mpls
-//!   W    = `-` (no MP_UNREACH builder) | `e` (an empty MP_UNREACH builder) | tok+
+//!   W    = `-` (no MP_UNREACH builder) | `e` (add_withdrawals_from_pdu of a foreign-family PDU: adds nothing) | tok+
 //!   A    = `-` | tok+            tok = <size> | <size>x<count>   (encoded NLRI size in bytes)
 //!   kind = `-` (family default, set_nexthop not called) | v4 | m4 | v6 | ll | ll2 | vpn4 | vpn6 | empty
 //!   len  = total encoded size of the (non-MP) path attributes, 0 or >= 3
@@ -401,7 +401,8 @@ fn real_nh(nh: Nh) -> Option<NextHop> {
 }
 
 /// a PDU whose only content is an MP_UNREACH_NLRI of another family than `f`;
-/// `add_withdrawals_from_pdu` of it leaves an *empty* MP_UNREACH builder behind
+/// `add_withdrawals_from_pdu` of it left an *empty* MP_UNREACH builder behind until the C07
+/// repair of K7; now it leaves the builder unchanged (the `e` lines check exactly that)
 fn foreign_pdu(f: Fam) -> UpdateMessage<Bytes> {
     let cfg = SessionConfig::modern();
     let raw: Vec<u8> = match f {
@@ -604,11 +605,13 @@ fn judge(c: &Case) -> Verdict {
     }
     // an error is only justified when the input cannot be represented
     if any_err && !run.hang {
-        let invalid = c.wd.as_ref().is_some_and(|v| v.is_empty()) || (c.ann.is_empty() && c.nh != Nh::Default);
+        // (`wd e` = add_withdrawals_from_pdu of a foreign-family PDU: since the C07 repair of K7 it
+        // leaves no empty MP_UNREACH builder behind, so it is no reason for an error any more)
+        let invalid = c.ann.is_empty() && c.nh != Nh::Default;
         let unrepresentable = if c.op == Op::Single {
             23 + c.attrs
                 + (if c.ann.is_empty() && c.nh == Nh::Default { 0 } else { mp_reach_len(exp_nh.len(), exp_ann.iter().map(|x| x.len()).sum()) })
-                + c.wd.as_ref().map_or(0, |_| mp_unreach_len(exp_wd.iter().map(|x| x.len()).sum())) > MAX_PDU
+                + c.wd.as_ref().filter(|v| !v.is_empty()).map_or(0, |_| mp_unreach_len(exp_wd.iter().map(|x| x.len()).sum())) > MAX_PDU
         } else {
             exp_wd.iter().any(|w| 23 + mp_unreach_len(w.len()) > MAX_PDU)
                 || exp_ann.iter().any(|a| 23 + c.attrs + mp_reach_len(exp_nh.len(), a.len()) > MAX_PDU)
